@@ -358,6 +358,11 @@ def check_spec(repo, rel, res):
     if "Init" not in m.defs or "Next" not in m.defs:
         res.fail("TLA-NEXT", spec + "/Init-Next", rel, "Init or Next is not defined")
         return
+    # pre-pass: which message kinds are a leader's word for a collected quorum (see leader_types)
+    pre = {"spec": spec, "m": m, "ty": ty, "res": Result(), "reached": set(), "assign": 0, "leader_types": set()}
+    for rn in res.rules: pre["res"].rule(rn, "", "")
+    walk(pre, m.ents[m.defs["Next"]].find("body")[0], {}, [], "Next", init=False)
+    ctx["leader_types"] = leader_types(pre)
     walk(ctx, m.ents[m.defs["Init"]].find("body")[0], {}, [], "Init", init=True)
     walk(ctx, m.ents[m.defs["Next"]].find("body")[0], {}, [], "Next", init=False)
     if ctx["assign"] < 15:
@@ -450,6 +455,14 @@ def flatx(m, n, sub=None, depth=0):
                 for pu, a in zip(ps, args): s2[pu] = flatx(m, a, sub, depth)
                 return flatx(m, d.find("body")[0], s2, depth + 1)
         if not args: return nm
+        if nm == "$SubsetOf" and len(args) == 1:
+            # {x \in {y \in D : Q} : P} is {x \in D : Q /\ P}: a filter over a set that is itself a filter (usually a
+            # LET-bound name) is read with both conditions
+            bs = m.bounds(n)
+            if len(bs) == 1 and bs[0][1] is not None:
+                dt = flatx(m, bs[0][1], sub, depth)
+                if dt.startswith("$SubsetOf(") and dt.endswith(")"):
+                    return "$SubsetOf(\\land(%s,%s))" % (dt[len("$SubsetOf("):-1], flatx(m, args[0], sub, depth))
         return nm + "(" + ",".join(flatx(m, a, sub, depth) for a in args) + ")"
     return n.tag
 
@@ -577,9 +590,15 @@ def enum_strings(m, n, sub=None, depth=0):
     if d is not None and not args and depth < 4: return enum_strings(m, d.find("body")[0], sub, depth + 1)
     return None
 
-def worth_expanding(m, d):
-    """a module-local operator is looked into when a quorum or a bounded quantifier hides in it"""
-    return any(m.opname(a)[2] in ("Cardinality", "$BoundedExists") for a in d.find("body").iter("OpApplNode"))
+def worth_expanding(m, d, depth=0):
+    """a module-local operator is looked into when a quorum or a bounded quantifier hides in it, directly or in an
+    operator it is written with"""
+    for a in d.find("body").iter("OpApplNode"):
+        kind, uid, nm = m.opname(a)
+        if nm in ("Cardinality", "$BoundedExists"): return True
+        d2 = local_def(m, kind, uid)
+        if d2 is not None and d2 is not d and depth < 4 and worth_expanding(m, d2, depth + 1): return True
+    return False
 
 def nnf(m, n, pol=True, sub=None, depth=0):
     """('and'|'or', [children]) | ('atom', op, left text, right text, whole text, positive?)"""
@@ -731,6 +750,17 @@ def walk(ctx, n, env, guards, action, init):
         walk(ctx, args[1], env, guards + [(args[0], True)], action, init)
         walk(ctx, args[2], env, guards + [(args[0], False)], action, init)
         return
+    if name == "$Case":
+        # CASE p1 -> e1 [] ... [] OTHER -> e: an arm is taken under its own condition, OTHER under none of the others
+        conds = []
+        for arm in args:
+            c, v = m.operands(arm)
+            if c.tag == "StringNode" and c.find("StringValue").text == "$Other":
+                walk(ctx, v, env, guards + [(x, False) for x in conds], action, init)
+            else:
+                conds.append(c)
+                walk(ctx, v, env, guards + [(c, True)], action, init)
+        return
     if kind == "UserDefinedOpKindRef" and m.ents[uid].find("location/filename").text == m.name and (contains_prime(m, m.ents[uid].find("body")[0]) or m.ents[uid].find("level").text == "2"):
         d = m.ents[uid]
         ctx["reached"].add(uid)
@@ -783,6 +813,8 @@ def walk(ctx, n, env, guards, action, init):
                 res.fail("TLA-TYPE", spec + "/" + action + "/undecided:" + target, where, "UNDECIDED: %s" % e)
             if target == "rmState":
                 guard_rules(ctx, rhs, env, guards, action, init, where)
+            if target == "msgs" and not init:
+                ctx.setdefault("sends", []).append((rhs, env, list(guards), dict(ctx.get("psub") or {}), action))
             return
     if contains_prime(m, n):
         res.fail("TLA-TYPE", spec + "/" + action + "/undecided-shape", m.loc(n), "UNDECIDED: primed expression outside the supported fragment (%s)" % name)
@@ -834,6 +866,39 @@ def expand_guards(ctx, guards, env):
         else:
             out.append((g, pol))
     return out
+
+CVKIND = lambda body: len(set(re.findall(r'"(ChangeView\w*)"', body))) == 1
+
+def leader_types(ctx):
+    """message kinds that stand for a collected view-change quorum: every action that sends one does so, in every
+    alternative of its guard, behind M ChangeView messages of one stage (a faulty node's sends count too: a kind that a
+    faulty node may send unguarded proves nothing to its receiver)"""
+    m, ty = ctx["m"], ctx["ty"]
+    guarded, unguarded = set(), set()
+    for rhs, env, guards, psub, action in ctx.get("sends", []):
+        kinds, unknown = set(), False
+        enums = [n for n in rhs.iter("OpApplNode") if m.opname(n)[2] == "$SetEnumerate"]
+        if not enums: unknown = True
+        for n in enums:
+            for el in m.operands(n):
+                try:
+                    vt = ty.infer(el, env)
+                    d = dict(vt[1]) if vt[0] == "rec" else {}
+                    if "type" in d and d["type"][0] == "str": kinds |= set(d["type"][1])
+                    else: unknown = True
+                except Exception:
+                    unknown = True
+        if unknown:
+            ctx["unknown_send"] = True
+            continue
+        try:
+            clauses = dnf(("and", [nnf(m, g, pol, psub) for g, pol in guards]))
+            ok = bool(clauses) and all(any(quorum_atom(a, CVKIND) in (0, 1) for a in cl) for cl in clauses)
+        except Undecided:
+            ok = False
+        (guarded if ok else unguarded).update(kinds)
+    if ctx.get("unknown_send"): return set()
+    return {k for k in guarded - unguarded if not k.startswith("ChangeView")}
 
 def guard_rules(ctx, rhs, env, guards, action, init, where):
     m, res, spec = ctx["m"], ctx["res"], ctx["spec"]
@@ -891,12 +956,12 @@ def guard_rules(ctx, rhs, env, guards, action, init, where):
             except Undecided as e:
                 res.fail("TLA-GUARD", spec + "/" + action + "/view-guard", where, "UNDECIDED: %s" % e); continue
             # ... of ONE stage: a quorum mixed from several kinds of ChangeView message excludes nothing
-            wantcv = lambda body: len(set(re.findall(r'"(ChangeView\w*)"', body))) == 1
+            wantcv = CVKIND
             missing = []
             for cl in clauses:
                 if any(quorum_atom(a, wantcv) in (0, 1) for a in cl): continue
-                if any(a[5] and '"DoChangeView' in a[4] for a in cl): continue
-                missing.append("no M-quorum of ChangeView messages (nor a leader's DoChangeView) in the alternative {%s}" % " ; ".join(a[4][:60] for a in cl))
+                if any(a[5] and any('"%s"' % L in a[4] for L in ctx.get("leader_types", ())) for a in cl): continue
+                missing.append("no M-quorum of ChangeView messages (nor a message kind that only a leader holding such a quorum sends: %s) in the alternative {%s}" % (sorted(ctx.get("leader_types", ())) or "none in this spec", " ; ".join(a[4][:60] for a in cl)))
                 break
             it = flat(m, idx) if idx is not None else "r"
             hypkey = '$RcdSelect($FcnApply(rmState,%s),"type")' % it
